@@ -31,6 +31,7 @@ type Engine struct {
 	// package-level slices initialised from a literal of constants and never written afterwards
 	constTables map[string][]*ssa.Const
 	strIDs map[string]int
+	inferred map[string]string // fields of shared structs without a declaration: key -> inferred class
 	strs   []string
 	tyIDs  map[string]int
 	tys    []string
@@ -251,6 +252,7 @@ func LoadEngine(repo string, contractsPath string) (*Engine, error) {
 	sort.Strings(e.inlineOnly)
 	sort.Slice(e.roots, func(i, j int) bool { return e.keyOf[e.roots[i]] < e.keyOf[e.roots[j]] })
 	e.findConstTables()
+	e.inferFieldClasses()
 	if err := e.loadCatalogue(); err != nil {
 		return nil, err
 	}
@@ -295,6 +297,18 @@ func (e *Engine) pos(p token.Pos) string {
 		rel = ps.Filename
 	}
 	return fmt.Sprintf("%s:%d", rel, ps.Line)
+}
+
+// strOf: the text of an interned string literal.
+func (e *Engine) strOf(t Term) (string, bool) {
+	if !isNumLit(t.S) {
+		return "", false
+	}
+	var id int
+	if _, err := fmt.Sscanf(t.S, "%d", &id); err != nil || id < 0 || id >= len(e.strs) {
+		return "", false
+	}
+	return e.strs[id], true
 }
 
 func (e *Engine) strID(s string) Term {
@@ -413,6 +427,105 @@ func (e *Engine) fieldDecl(root string, path []string) *FieldDecl {
 // sharedStructs are the struct types whose every field must be declared.
 var sharedStructs = []string{"kvElection", "disconnectHandler", "natsConnectionMonitor", "CircuitBreaker", "natsWatcherAdapter", "MockWatcherAdapter"}
 
+
+// inferFieldClasses gives every field of a shared struct that the contract file does not declare the class the code
+// itself shows (so that a new field is decided by its accesses instead of being reported as undeclared): sync and
+// atomic types by their type; a field that is only ever stored through a fresh allocation of the struct in the same
+// function (a constructor) and whose address is never taken is immutable; everything else is guarded by the struct's
+// mutex field `mu` (every access then has to hold it). Inferred classes are listed in the evidence.
+func (e *Engine) inferFieldClasses() {
+	e.inferred = map[string]string{}
+	for _, sname := range sharedStructs {
+		obj := e.tpkg.Scope().Lookup(sname)
+		if obj == nil {
+			continue
+		}
+		st, ok := obj.Type().Underlying().(*types.Struct)
+		if !ok {
+			continue
+		}
+		hasMu := false
+		for i := 0; i < st.NumFields(); i++ {
+			if st.Field(i).Name() == "mu" {
+				hasMu = true
+			}
+		}
+		for i := 0; i < st.NumFields(); i++ {
+			f := st.Field(i)
+			key := sname + "." + f.Name()
+			if _, declared := e.cs.Fields[key]; declared {
+				continue
+			}
+			ts := types.TypeString(f.Type(), nil)
+			fd := &FieldDecl{Key: key}
+			switch {
+			case strings.HasPrefix(ts, "sync/atomic."):
+				fd.Class = "atomic"
+			case strings.HasPrefix(ts, "sync."):
+				fd.Class = "sync"
+			case e.onlyConstructorStores(obj.Type(), i):
+				fd.Class = "immutable"
+			case hasMu:
+				fd.Class = "guarded_by"
+				fd.Lock = "mu"
+			default:
+				continue
+			}
+			e.cs.Fields[key] = fd
+			e.inferred[key] = fd.Class
+		}
+	}
+}
+
+// onlyConstructorStores: every store to field i of struct type t in the package goes through a fresh allocation of
+// t made in the same function, and the field's address is used for nothing but loads and such stores.
+func (e *Engine) onlyConstructorStores(t types.Type, i int) bool {
+	for fn := range ssautil.AllFunctions(e.pkg.Prog) {
+		if fn.Pkg != e.pkg {
+			continue
+		}
+		for _, b := range fn.Blocks {
+			for _, in := range b.Instrs {
+				fa, ok := in.(*ssa.FieldAddr)
+				if !ok || fa.Field != i {
+					continue
+				}
+				pt, ok := fa.X.Type().Underlying().(*types.Pointer)
+				if !ok || !types.Identical(pt.Elem(), t) {
+					continue
+				}
+				_, fresh := fa.X.(*ssa.Alloc)
+				for _, r := range *fa.Referrers() {
+					switch x := r.(type) {
+					case *ssa.UnOp:
+						// load
+					case *ssa.Store:
+						if x.Addr != ssa.Value(fa) || !fresh {
+							return false
+						}
+					case *ssa.FieldAddr:
+						// a member of a struct-typed field: loads only, or constructor stores
+						for _, r2 := range *x.Referrers() {
+							switch y := r2.(type) {
+							case *ssa.UnOp, *ssa.DebugRef:
+							case *ssa.Store:
+								if y.Addr != ssa.Value(x) || !fresh {
+									return false
+								}
+							default:
+								return false
+							}
+						}
+					case *ssa.DebugRef:
+					default:
+						return false
+					}
+				}
+			}
+		}
+	}
+	return true
+}
 
 // findConstTables recognises `var table = []T{c0, c1, ...}` at package level: the init function stores constants
 // into a fresh array, slices it and stores the slice into the global; no other instruction of the package writes the
